@@ -273,6 +273,12 @@ def _instance_state(chk, ctx) -> None:
         chk.ob('C15.instance_state', f'State.{name}', ok, ctx.loc(ctx.sfi('__post_init__'), node),
                'a mutable container of the state is created per instance (default_factory), never shared through the class',
                got=stmt_text(v) if v is not None else None)
+    # ... and all of it is in the declared fields: no method keeps a result of its own between calls (cache, cached_property)
+    from ..ctx import _dynamic
+    hidden = [(fi, d) for fi in st.methods.values() for d in _dynamic(ctx.prog, fi)[:1]]
+    chk.ob('C15.instance_state', 'State:no_hidden_state', not hidden, ctx.loc(hidden[0][0], hidden[0][1][0]) if hidden else st.loc,
+           'the state of a hand is its declared fields: no method of State is wrapped by a cache or another decorator that remembers '
+           '(an observed state would then differ from an unobserved twin, a replay or an earlier copy)', got=[f'{fi.name}: {d[1]}' for fi, d in hidden[:3]])
     chk.floor('C15.instance_state', 20)
     # no class-attribute / global writes anywhere in State
     bad = []
